@@ -462,6 +462,12 @@ class Interp:
             p.ev('tail', args=args, gargs=[ty_key(strip_regions(g)) for g in gargs], ln=ln, fn=fn.dp, block=b, frame=frame, delegate=path)
             setd(('tailret',))
             return target
+        # --- a thin wrapper handing the whole step to a sibling walk method of this same cell (`Self::other_walk(..)`)
+        if trait and path in getattr(self.prog, 'walk_items', ()) and path != self.trait_item and gargs and self.fn.impl is not None \
+                and ty_key(strip_regions(gargs[0])) == ty_key(strip_regions(self.fn.impl['self'])):
+            p.ev('tail', args=args, gargs=[ty_key(strip_regions(g)) for g in gargs], ln=ln, fn=fn.dp, block=b, frame=frame, delegate=path, on_self=True)
+            setd(('tailret',))
+            return target
         if trait and self.trait_item and path == self.trait_item:
             p.ev('self_call_other', on=ty_str(gargs[0]) if gargs else '?', args=args, ln=ln, fn=fn.dp, block=b)
             setd(('unk', 'selfcall'))
